@@ -3,7 +3,8 @@ use crate::rng::Rng;
 use crate::srv::*;
 use crate::tok::*;
 
-pub const KEYS: &[&[u8]] = &[b"k1", b"k2", b"k3", b"", b"\x00\xffb", b"key:with space"];
+// k1/ka share engine shard 1 (FNV-1a mod 16), k2/kb shard 8: same-shard and cross-shard paths are both exercised
+pub const KEYS: &[&[u8]] = &[b"k1", b"k2", b"k3", b"", b"\x00\xffb", b"key:with space", b"ka", b"kb"];
 pub const OTHER_KEYS: &[&[u8]] = &[b"l1", b"s1", b"h1", b"z1", b"x1"];
 pub const VALUES: &[&[u8]] = &[b"", b"a", b"hello", b"10", b"-1", b"9223372036854775807", b"-9223372036854775808",
     b"007", b" 5", b"+5", b"1.5", b"\x00\xff\r\n", b"9223372036854775806", b"abc def"];
@@ -12,9 +13,9 @@ pub const INTS: &[&[u8]] = &[b"0", b"1", b"-1", b"5", b"9223372036854775807", b"
 pub const IDX: &[&[u8]] = &[b"0", b"1", b"-1", b"2", b"-2", b"3", b"-3", b"5", b"-5", b"100", b"-100",
     b"9223372036854775807", b"-9223372036854775808", b"x", b"4", b"-4", b"-6", b"6"];
 pub const OFFS: &[&[u8]] = &[b"0", b"1", b"3", b"10", b"536870913", b"18446744073709551615", b"-1", b"7", b"abc", b"536870912"];
-// only long time-to-lives: with PX / PSETEX the values are milliseconds, and a history may take more
-// than 100 ms of real time on a loaded machine while the model clock stands still (no SLEEP ops here)
-pub const TTLS: &[&[u8]] = &[b"100000", b"1000000", b"18446744073709551615", b"9223372036854775807", b"abc", b"-1", b"", b"200000"];
+pub const TTLS: &[&[u8]] = &[b"100", b"1000", b"18446744073709551615", b"9223372036854775807", b"abc", b"-1", b"", b"100000"];
+// millisecond TTLs: never short enough to expire during a history (expiry itself is C02's subject)
+pub const TTLS_MS: &[&[u8]] = &[b"100000", b"1000000", b"18446744073709551615", b"9223372036854775807", b"abc", b"-1", b"", b"9223372036854775807000"];
 pub const PATTERNS: &[&[u8]] = &[b"*", b"k*", b"k?", b"?1", b"[kl]*", b"k[1-2]", b"[^k]*", b"*1", b"\\k1", b"k\\*", b"", b"*:*", b"k[", b"**1", b"*?*"];
 
 pub const WITH_OTHER_TYPES: bool = true;
@@ -34,7 +35,7 @@ pub fn gen_cmd(r: &mut Rng) -> Vec<Vec<u8>> {
                 match r.below(6) {
                     0 => c.push(v(b"NX")), 1 => c.push(v(b"xx")),
                     2 => { c.push(v(b"EX")); c.push(v(pick(r, TTLS))); }
-                    3 => { c.push(v(b"px")); c.push(v(pick(r, TTLS))); }
+                    3 => { c.push(v(b"px")); c.push(v(pick(r, TTLS_MS))); }
                     4 => c.push(v(b"EX")),
                     _ => c.push(v(b"BOGUS")),
                 }
@@ -48,7 +49,7 @@ pub fn gen_cmd(r: &mut Rng) -> Vec<Vec<u8>> {
         7 => vec![v(b"GETSET"), v(k), v(pick(r, VALUES))],
         8 => vec![v(b"SETNX"), v(k), v(pick(r, VALUES))],
         9 => vec![v(b"SETEX"), v(k), v(pick(r, TTLS)), v(pick(r, VALUES))],
-        10 => vec![v(b"PSETEX"), v(k), v(pick(r, TTLS)), v(pick(r, VALUES))],
+        10 => vec![v(b"PSETEX"), v(k), v(pick(r, TTLS_MS)), v(pick(r, VALUES))],
         11 => vec![v(b"APPEND"), v(k), v(pick(r, VALUES))],
         12 => vec![v(b"STRLEN"), v(k)],
         13 | 14 => vec![v(b"GETRANGE"), v(k), v(pick(r, IDX)), v(pick(r, IDX))],
